@@ -387,6 +387,13 @@ fn random_history(t: &mut Tape, gates: &Gates) -> Vec<Note> {
                 }
                 _ => text,
             };
+            // a flat chain of 150 .. 250 operands in front of a fault (no nesting, but a tree that deep:
+            // whatever the command line digests, the server digests - on whatever thread it runs)
+            if t.ratio(1, 14) {
+                let nterms = *t.pick(&[150usize, 200, 250]);
+                let pfx = format!("{}{}c_", ["a", "b"][u], j);
+                docs[u].push(format!("PROGRAM {p}p\nVAR\n{p}x : INT;\nEND_VAR\n{p}x := {chain}{p}x;\n{p}x := {p}undeclared;\nEND_PROGRAM\n", p = pfx, chain = format!("{}x + ", pfx).repeat(nterms)));
+            }
             // a text that begins with U+FEFF (an editor that passes the byte-order mark of the file
             // through): whatever the server makes of it, it makes the same of it in every notification
             if t.ratio(1, 12) {
